@@ -18,6 +18,7 @@ import Comrak.Drv.C01
 import Comrak.Drv.C04
 import Comrak.Drv.Cm
 import Comrak.Drv.C06
+import Comrak.Drv.Arena
 namespace Comrak.Drv
 
 def handlers : List Handler :=
@@ -36,6 +37,7 @@ def handlers : List Handler :=
   , Comrak.Drv.C04.handle
   , Comrak.Drv.Cm.handle
   , Comrak.Drv.C06.handle
+  , Comrak.Drv.Arena.handle
   ]
 
 end Comrak.Drv
